@@ -103,6 +103,10 @@ def shards(tier):
     return out
 
 
+class FirstAllocationFailed(Exception):
+    pass
+
+
 def build(case):
     from frame.die.die import Die
     from frame.netlist.netlist import Netlist
@@ -166,7 +170,10 @@ def build(case):
         from frame.allocation.allocation import create_initial_allocation
         from frame.geometry.geometry import Point
         if die.floorplanning_rectangles()[0] or die.floorplanning_rectangles()[1]:
-            create_initial_allocation(die, False)
+            try:
+                create_initial_allocation(die, False)
+            except Exception as e:  # noqa - this is the code under test, not the harness
+                raise FirstAllocationFailed(f'{type(e).__name__}: {e}')
         dx, dy = F(mv[0]) * u / 2, F(mv[1]) * u / 2
         for mname, md in model.items():
             if md['kind'] == 'fixed':
@@ -209,6 +216,10 @@ def check_case(case, res):
     attrs = dict(fam=case['fam'], zero=case['zero'], pre=bool(case.get('pre')), nmods=len(case['mods']), moved=bool(case.get('move')))
     try:
         die, netlist, model, scale = build(case)
+    except FirstAllocationFailed as e:
+        res.violation('raises', case, dict(attrs, exc='first-allocation'), 'an allocation', str(e))
+        res.case('raised')
+        return
     except Exception as e:  # noqa
         # the inputs are valid by construction (C01/C05 judge the loaders): failing to build one is a harness bug
         raise RuntimeError(f'C03 harness could not build {case}: {type(e).__name__}: {e}')
